@@ -254,6 +254,35 @@ Definition process_bsdiff (fuel : nat) (fx : bool) (tgt : list Z) (outSize : Z) 
     end
   end.
 
+(** savingPatcher.skipFile (a series of a file that is not whitelisted).  A bsdiff series is read
+    as what it is (fix "skipFile follows the series kind announced by the sync header"): one
+    BsdiffHeader, Control messages up to and including the one marked eof, then a SyncOp that
+    must be the sentinel; an rsync series is read op by op up to the end marker *)
+Fixpoint until_eof (fuel : nat) (s : stream) : step stream :=
+  match fuel with
+  | O => Stop Hang
+  | S f => match read s with
+           | None => Stop Err
+           | Some (fs, s1) => if c_eof (dec_ctl fs) then Cont s1 else until_eof f s1
+           end
+  end.
+
+Definition skip_file (fuel : nat) (kind : Z) (s : stream) : step stream :=
+  if kind =? BSDIFF then
+    match read s with                                    (* the BsdiffHeader (its fields are not used) *)
+    | None => Stop Err
+    | Some (_, s1) =>
+      match until_eof fuel s1 with
+      | Stop r => Stop r
+      | Cont s2 =>
+        match read s2 with                               (* the sentinel SyncOp *)
+        | None => Stop Err
+        | Some (fs2, s3) => if op_type (dec_op fs2) =? HEY then Cont s3 else Stop Err
+        end
+      end
+    end
+  else until_hey fuel s.
+
 Definition whitelisted (wl : option (list Z)) (i : Z) : bool :=
   match wl with
   | None => true
@@ -273,7 +302,7 @@ Fixpoint resume (fuel : nat) (fx : bool) (bs maxoff : Z) (tgt : list Z) (wl : op
       if negb (sh_file sh =? idx) then Err               (* expected file idx *)
       else if negb ((sh_type sh =? RSYNC) || (sh_type sh =? BSDIFF)) then Err   (* unknown series kind *)
       else
-        let r := if negb (whitelisted wl idx) then until_hey fuel s1          (* skipFile *)
+        let r := if negb (whitelisted wl idx) then skip_file fuel (sh_type sh) s1   (* skipFile *)
                  else if sh_type sh =? RSYNC then process_rsync fuel fx bs maxoff tgt outSize s1
                  else process_bsdiff fuel fx tgt outSize s1 in
         match r with
